@@ -852,9 +852,11 @@ def gen_hub(rng, world=None, audit=None):
 WHICH = dict(C02=2, C04=4, C05=5, C06=6)
 # flags of the findings that are listed as OPEN (behaviour of the code as it is); every other flag
 # belongs to a defect that was repaired in /repo and must stay off
-CUR_FLAGS = ["d_unordered"]
+CUR_FLAGS = ["d_unordered", "d_delete_interchain"]
 FLAG_FINDING = {
     ("C02", "d_unordered"): "C02-unordered-dst", ("C04", "d_unordered"): "C04-unordered-dst", ("C06", "d_unordered"): "C06-unordered-dst",
+    ("C02", "d_delete_interchain"): "C02-delete-interchain", ("C04", "d_delete_interchain"): "C04-delete-interchain",
+    ("C06", "d_delete_interchain"): "C06-delete-interchain",
 }
 PROOF_TARGETS = ["Proofs/TxFsmProofs", "Proofs/IbtpProps", "Proofs/IbtpMonProofs", "Proofs/IbtpNotify", "Proofs/IbtpFin", "Proofs/IbtpRestart", "Proofs/IbtpGArm", "Proofs/RouterProofs"]
 MODEL_TARGETS = ["TxMgr", "Interchain", "IbtpExec", "IbtpMon", "IbtpJudge"]
